@@ -300,10 +300,12 @@ func (p *printVisitor) EnterOperationDefinition(ref int) {
 
 	hasName := p.document.OperationDefinitions[ref].Name.Length() > 0
 	hasVariables := p.document.OperationDefinitions[ref].HasVariableDefinitions
+	// the shorthand form `{...}` can neither carry directives nor a description
+	needsKeyword := p.document.OperationDefinitions[ref].HasDirectives || p.document.OperationDefinitions[ref].Description.IsDefined
 
 	switch p.document.OperationDefinitions[ref].OperationType {
 	case ast.OperationTypeQuery:
-		if hasName || hasVariables {
+		if hasName || hasVariables || needsKeyword {
 			p.write(literal.QUERY)
 		}
 	case ast.OperationTypeMutation:
